@@ -20,7 +20,7 @@ import (
 
 func init() { Registry["C11"] = runC11 }
 
-const c11Delay = 250 * time.Millisecond
+const c11Delay = 400 * time.Millisecond
 
 // membership values (group size, member number) of the schedules; value i of the model is c11Members[i-1]
 var c11Members = [][2]int{{1, 1}, {2, 1}, {2, 2}, {3, 1}, {3, 2}, {3, 3}}
@@ -42,6 +42,7 @@ type c11Result struct {
 	InClose  bool // some notification arrived while a close was in progress
 	Term     gal.Term
 	Crashed  string
+	Discard  string // the harness lost control of the schedule (a timing assumption of its own broke): not a case
 }
 
 type c11Arg struct {
@@ -131,6 +132,7 @@ func runRebalanceSchedule(rng *rand.Rand, dynamic bool) *c11Result {
 	// mirror of the phases, to know which ops are enabled and what to wait for
 	phase, timer, blocked, deferred := "open", "nil", 0, 0
 	lastNotify := time.Now()
+	var lastDelayNotify time.Time // the last notification issued while the harness believed the reopen timer armed
 	var ops []gal.Term
 	var outs []gal.Term
 	emit := func(name string, op gal.Term, cbs []string) {
@@ -165,6 +167,9 @@ func runRebalanceSchedule(rng *rand.Rand, dynamic bool) *c11Result {
 	for step := 0; step < nOps || phase != "open" || deferred > 0; step++ {
 		if step > 60 {
 			res.Notes = append(res.Notes, "schedule did not come to rest")
+			break
+		}
+		if res.Discard != "" {
 			break
 		}
 		var choices []string
@@ -242,6 +247,8 @@ func runRebalanceSchedule(rng *rand.Rand, dynamic bool) *c11Result {
 				if phase != "delay" {
 					deferred++
 					everDeferred = true
+				} else {
+					lastDelayNotify = lastNotify
 				}
 				emit("notify", gal.App("Notify", gal.N(uint64(info))), d.Hand.Take())
 			}
@@ -268,6 +275,7 @@ func runRebalanceSchedule(rng *rand.Rand, dynamic bool) *c11Result {
 			time.Sleep(10 * time.Millisecond)
 			phase, timer = "delay", "armed"
 			lastNotify = time.Now()
+			lastDelayNotify = time.Time{}
 			emit("closedone", "CloseDone", d.Hand.TakeThrough("AfterRebalanceStart")) // with dynamic membership the reopen may already have started
 		case "deferred":
 			deferred--
@@ -295,6 +303,10 @@ func runRebalanceSchedule(rng *rand.Rand, dynamic bool) *c11Result {
 			holdMu.Unlock()
 			if !waitHeld("BeforeRebalanceEnd", 3*c11Delay+time.Second) {
 				res.Notes = append(res.Notes, "the reopen timer never fired")
+			} else if t := d.Hand.HeldAt("BeforeRebalanceEnd"); !lastDelayNotify.IsZero() && t.Before(lastDelayNotify) {
+				// the machine stalled: the timer had fired before that notification was issued, so it was not a
+				// notification "during the delay" at all
+				res.Discard = "a notification believed to fall into the delay was issued after the reopen timer had fired"
 			} else if dynamic && !everDeferred && time.Since(lastNotify) > c11Delay/2 {
 				res.Notes = append(res.Notes, fmt.Sprintf("dynamic membership: the reopen started %v after the close, not immediately", time.Since(lastNotify)))
 			}
@@ -399,7 +411,7 @@ func runRebalanceSchedule(rng *rand.Rand, dynamic bool) *c11Result {
 func runC11(c *Ctx) {
 	c.Res.Rule = "schedules of the real stream.Rebalance() with the lifecycle callbacks held by the harness: notifications while streaming, inside the close, " +
 		"during the delay (timer pushed back), while reopening (deferred), from several goroutines, with the membership value changing; the reopen timer and the " +
-		"deferred timers are real (delay 250 ms). Observed per step: the callbacks; at rest: completed cycles, the range the stream is opened on, open, stopCh. " +
+		"deferred timers are real (delay 400 ms). Observed per step: the callbacks; at rest: completed cycles, the range the stream is opened on, open, stopCh. " +
 		"Distinct = distinct step list; non-trivial = at least two notifications"
 	n := c.Pick(48, 400)
 	nd := c.Pick(12, 80) // the last nd schedules run with dynamic membership: the reopen starts at once
@@ -417,6 +429,10 @@ func runC11(c *Ctx) {
 	for i, r := range results {
 		if r.Crashed != "" {
 			c.Violate("process-died", "the process running this schedule of stream.Rebalance() died: "+r.Crashed, map[string]interface{}{"seed": seeds[i], "how": "vh child c11 with this seed"})
+			continue
+		}
+		if r.Discard != "" {
+			c.Count("schedule-discarded (" + r.Discard + ")")
 			continue
 		}
 		if i >= n-nd {
